@@ -463,6 +463,10 @@ def run(ctx):
     r5_pattern_text(ctx, sym, mod)
     r6_placeholder_named_identifiers(ctx, sym, mod)
     r7_equal_nodes_match(ctx, sym, mod)
+    # R8: the student tree searched is the parse of the code asked for, whatever was queried before (the C08.R8
+    # decision table over call sequences of reparse_if_needed, here for find_matches)
+    from .c08 import r8_program_identity
+    r8_program_identity(ctx, sym, rule='R8', entry='find_matches')
     ctx.assume("completeness of the search as a whole (sibling windows, youngest-sibling bookkeeping, meta-field "
                "matching along the recursion, dropped sibling statements, consistent _var_ renaming) is an inductive "
                "property of the algorithm and is NOT decided; only the three structural clauses above are")
